@@ -388,6 +388,38 @@ namespace c04
         }
     }
 
+    namespace
+    {
+        // complex<T> registers <-> complex<U> memory (the other precision), through the free load_as / store_as tag forms
+        template <class T, class U>
+        void add_complex_cvt(std::vector<OpEntry>& out)
+        {
+            using CT = std::complex<T>;
+            using CU = std::complex<U>;
+            using B = xsimd::batch<T, A>;
+            using CB = xsimd::batch<CT, A>;
+            const int L = (int)B::size;
+            const int E = (int)sizeof(T);
+            const int AL = (int)A::alignment();
+            const int EL = (int)alignof(CU);
+            auto add = [&](const char* form, Kind k, int align_req, void (*fn)(Ctx&))
+            {
+                OpEntry e { C04_ARCHNAME, sizeof(T) == 4 ? "c32" : "c64", form, k, L, E, align_req, true, fn };
+                e.mem_tname = sizeof(U) == 4 ? "f32" : "f64";
+                e.mem_elem = (int)sizeof(U);
+                out.push_back(e);
+            };
+            add("xsimd::load_as<complex>(aligned_mode)[mem=other precision]", K_CCVT_LOAD, AL, [](Ctx& c)
+                { CB z = xsimd::load_as<CT, A>((const CU*)c.p, xsimd::aligned_mode {}); to_bytes(c.reg_out, z.real()); to_bytes(c.reg_out + sizeof(B), z.imag()); });
+            add("xsimd::load_as<complex>(unaligned_mode)[mem=other precision]", K_CCVT_LOAD, EL, [](Ctx& c)
+                { CB z = xsimd::load_as<CT, A>((const CU*)c.p, xsimd::unaligned_mode {}); to_bytes(c.reg_out, z.real()); to_bytes(c.reg_out + sizeof(B), z.imag()); });
+            add("xsimd::store_as<complex>(aligned_mode)[mem=other precision]", K_CCVT_STORE, AL, [](Ctx& c)
+                { xsimd::store_as((CU*)c.p, CB(from_bytes<B>(c.reg_in), from_bytes<B>(c.reg_in + sizeof(B))), xsimd::aligned_mode {}); });
+            add("xsimd::store_as<complex>(unaligned_mode)[mem=other precision]", K_CCVT_STORE, EL, [](Ctx& c)
+                { xsimd::store_as((CU*)c.p, CB(from_bytes<B>(c.reg_in), from_bytes<B>(c.reg_in + sizeof(B))), xsimd::unaligned_mode {}); });
+        }
+    }
+
     void C04_FN(std::vector<OpEntry>& out)
     {
         add_type<int8_t>(out);
@@ -402,6 +434,8 @@ namespace c04
         add_type<double>(out);
         add_complex<float>(out);
         add_complex<double>(out);
+        add_complex_cvt<float, double>(out);
+        add_complex_cvt<double, float>(out);
         // converting forms (register T <- memory U), every ordered pair of the 10 element types: same-size pairs take the fast_cast /
         // bitwise paths where the ISA has one, the others the scratch-buffer path (load_as does not accept long long / char, so those are not instantiated)
         add_cvt_row<int8_t>(out);
